@@ -124,3 +124,55 @@ def entry_predicates_contract(w: World):
     both_named_and_hashed = truthy(e[0].hash) and truthy(e[1].hash) and truthy(e[0].path) and truthy(e[1].path)
     check(truthy(e.hash_conflict()) == (both_named_and_hashed and e[0].hash != e[0].sync_hash and e[1].hash != e[1].sync_hash),
           "a content conflict: both sides named and hashed, and both differ from what was last synced")
+
+
+@lemma(props=["C11", "C05"], configs="none", raises=["AssertionError"],
+       inline=["cloudsync.sync.state:SyncState.split"], fixed_clock=True)
+def split_contract(w: World):
+    """the body of SyncState.split against the contract the manager lemmas use for it: the LOCAL side of the entry moves,
+    with its id, path, hash and existence, to a new entry; the original keeps its REMOTE side untouched and gets an empty
+    LOCAL side; both moved-apart sides are flagged changed and forget their last-synced path; the result names
+    (original, REMOTE, new entry, LOCAL)"""
+    state = w.state
+    ent = w.entry("ent")
+    assume(ent[0].oid is not None and len(ent[0].oid) > 0)
+    # call-site fact (hash conflict / upload to a folder: both sides are known objects); without a REMOTE id the flagging
+    # below recurses without bound -- observation D9 in DESIGN.md 12.3
+    assume(ent[1].oid is not None and len(ent[1].oid) > 0)
+    l_oid, l_path, l_hash, l_ex = ent[0].oid, ent[0].path, ent[0].hash, ent[0].exists
+    r_oid, r_path, r_hash, r_ex, r_sh = ent[1].oid, ent[1].path, ent[1].hash, ent[1].exists, ent[1].sync_hash
+    d, ds, rep, rs = state.split(ent)
+    check(d is ent and ds == 1 and rs == 0 and rep is not ent, "(original, REMOTE, new entry, LOCAL)")
+    check(rep[0].oid == l_oid, "the LOCAL side moved to the new entry with its id")
+    check(rep[0].path == l_path, "with its path")
+    check(rep[0].hash == l_hash, "with its hash")
+    check(rep[0].exists == l_ex, "with its existence")
+    check(ent[0].oid is None and ent[0].path is None and ent[0].hash is None, "the original's LOCAL side is empty")
+    check(ent[1].oid == r_oid and ent[1].path == r_path and ent[1].hash == r_hash and ent[1].exists == r_ex and ent[1].sync_hash == r_sh,
+          "the original's REMOTE side is untouched")
+    check(truthy(rep[0].changed) and truthy(ent[1].changed), "both moved-apart sides are flagged changed")
+    check(rep[0].sync_path is None and ent[1].sync_path is None, "and forget their last-synced path")
+
+
+@lemma(props=["C14", "C02"], configs="none", raises=["Exception"],
+       inline=["cloudsync.sync.state:SyncEntry.get_latest"],
+       stubs={"cloudsync.sync.state:SyncState.unconditionally_get_latest": {"results": ["None"], "havoc": False}})
+def get_latest_refreshes_stale_sides(w: World, force: bool):
+    """the body of SyncEntry.get_latest against the contract the manager lemmas use for it: a side is re-read from its
+    provider exactly when the re-read is forced or some change flag of the entry is newer than that side's last re-read;
+    each side is re-read at most once, and afterwards counts as read up to the newest flag"""
+    ent = w.entry("ent")
+    c0 = ent[0].changed if truthy(ent[0].changed) else 0
+    c1 = ent[1].changed if truthy(ent[1].changed) else 0
+    newest = c0 if c0 >= c1 else c1
+    stale = (newest > ent[0]._last_gotten, newest > ent[1]._last_gotten)
+    ent.get_latest(force=force)
+    reads = calls("unconditionally_get_latest")
+    for s in (0, 1):
+        n = 0
+        for c in reads:
+            if c.args[0] is ent and c.args[1] == s:
+                n = n + 1
+        check(n == (1 if (force or stale[s]) else 0), "a side is re-read exactly when forced or stale, once")
+        if force or stale[s]:
+            check(ent[s]._last_gotten == newest, "and then counts as read up to the newest change flag")
